@@ -98,6 +98,15 @@ func strictSites(p *Prog) map[string]bool {
 				if view && init && (selfMid(s.T, host) || selfMid(s.T2, host)) {
 					out["self"] = true
 				}
+			case "Let2":
+				// in a view initializer the self-rooted target of a second value transfer is not checked either
+				if view && init && s.T.Root() == idSelf {
+					out["self"] = true
+				}
+			case "Remove":
+				if view && init && s.T.Root() == idSelf {
+					out["self"] = true
+				}
 			}
 			ex(s.E, view, host)
 			ss(s.Th, view, init, host)
